@@ -23,7 +23,28 @@ pub fn classify_full(r: &Replay, tmpdir: &str, tag: &str) -> Vec<crate::replay::
         return vec![];
     }
     let exe = std::env::current_exe().unwrap();
-    let out = Command::new(exe).arg("classify").arg(&file).stdin(Stdio::null()).stderr(Stdio::null()).output();
+    let child = Command::new(exe).arg("classify").arg(&file).env("SIM_CAPTURE_DIR", tmpdir).stdin(Stdio::null()).stdout(Stdio::piped()).stderr(Stdio::piped()).spawn();
+    let (out, captured) = match child {
+        Err(e) => (Err(e), Vec::new()),
+        Ok(c) => {
+            let pid = c.id();
+            let out = c.wait_with_output();
+            // what the dying process printed into its captured fd 2
+            let mut captured = Vec::new();
+            if let Ok(rd) = std::fs::read_dir(tmpdir) {
+                for e in rd.filter_map(|e| e.ok()) {
+                    let name = e.file_name().to_string_lossy().to_string();
+                    if name.starts_with(&format!("cap-{}-", pid)) {
+                        if let Ok(d) = std::fs::read(e.path()) {
+                            captured.extend(d);
+                        }
+                        let _ = std::fs::remove_file(e.path());
+                    }
+                }
+            }
+            (out, captured)
+        }
+    };
     let _ = std::fs::remove_file(&file);
     match out {
         Err(_) => vec![],
@@ -33,7 +54,10 @@ pub fn classify_full(r: &Replay, tmpdir: &str, tag: &str) -> Vec<crate::replay::
                 if sig == libc::SIGXCPU || sig == libc::SIGKILL {
                     return vec![Violation::new("I1-abort:hang", "process exceeded its CPU limit".to_string())];
                 }
-                return vec![Violation::new(&format!("I1-abort:signal{}", sig), format!("process killed by signal {}", sig))];
+                let mut all = o.stderr.clone();
+                all.extend_from_slice(&captured);
+                let why = abort_signature(&all);
+                return vec![Violation::new(&format!("I1-abort:{}", why.unwrap_or_else(|| format!("signal{}", sig))), format!("process killed by signal {}: {}", sig, crate::orch::truncate(&String::from_utf8_lossy(&all), 300)))];
             }
             let text = String::from_utf8_lossy(&o.stdout);
             for line in text.lines() {
@@ -48,6 +72,26 @@ pub fn classify_full(r: &Replay, tmpdir: &str, tag: &str) -> Vec<crate::replay::
             }
         }
     }
+}
+
+/// A specific signature for a process death, from what the runtime printed:
+/// "oom@<first customasm frame>" for a failed allocation, "stack-overflow".
+pub fn abort_signature(stderr: &[u8]) -> Option<String> {
+    let t = String::from_utf8_lossy(stderr);
+    if t.contains("has overflowed its stack") {
+        return Some("stack-overflow".to_string());
+    }
+    if t.contains("memory allocation of") {
+        for line in t.lines() {
+            let l = line.trim();
+            if let Some(i) = l.find("customasm::") {
+                let frame: String = l[i..].chars().map(|c| if c == ' ' { '_' } else { c }).collect();
+                return Some(format!("oom@{}", frame));
+            }
+        }
+        return Some("oom".to_string());
+    }
+    None
 }
 
 fn same_class(target: &str, got: &[String]) -> bool {
